@@ -2,6 +2,7 @@ package exec
 
 import (
 	"crypto/md5"
+	"hash/crc32"
 	"go/types"
 	"math"
 
@@ -570,6 +571,17 @@ func init() {
 	}
 	intrinsics["sort.Slice"] = sortSlice
 	intrinsics["sort.SliceStable"] = sortSlice
+	intrinsics["hash/crc32.ChecksumIEEE"] = func(e *Engine, g *Goroutine, a []Value, fn *ssa.Function, c *ssa.Call) (Value, bool) {
+		bs := e.sliceTerms(a[0].(Slice), 1)
+		in := make([]byte, len(bs))
+		for i, b := range bs {
+			if !b.IsConst() {
+				e.abort("unsupported", "crc32 of symbolic input")
+			}
+			in[i] = byte(b.Val)
+		}
+		return e.tb.Const(32, uint64(crc32.ChecksumIEEE(in))), true
+	}
 	intrinsics["crypto/md5.Sum"] = func(e *Engine, g *Goroutine, a []Value, fn *ssa.Function, c *ssa.Call) (Value, bool) {
 		bs := e.sliceTerms(a[0].(Slice), 1)
 		in := make([]byte, len(bs))
